@@ -119,6 +119,12 @@ func (w *World) ruleKindNarrowing(r *Report, rule string) {
 				case !changed:
 					o := r.add(rule, key, w.instrPos(cv), true, fmt.Sprintf("operand ∈ %s fits %s (kinds here: %v)", src, typeStr(cv.Type()), kinds))
 					o.Trivial = tb > sb
+				case tb == sb && ssig != tsig && tb < 64:
+					// only the widest wire integer has no exact alternative: an unsigned value
+					// reinterpreted as a narrower signed one denotes a negative number for every
+					// receiver that is not statically typed (top level, untyped lists and maps),
+					// while the 64-bit wire integer would carry it exactly
+					r.add(rule, key, w.instrPos(cv), false, fmt.Sprintf("same-width reinterpretation %s→%s (kinds %v) of operand ∈ %s: values above the signed maximum go on the wire as negative numbers although the 64-bit wire integer carries them exactly", typeStr(cv.X.Type()), typeStr(cv.Type()), kinds, src))
 				case tb == sb && ssig != tsig:
 					ok, fact := w.decoderInverts(kinds, cv)
 					r.add(rule, key, w.instrPos(cv), ok, fmt.Sprintf("same-width reinterpretation %s→%s (kinds %v): %s", typeStr(cv.X.Type()), typeStr(cv.Type()), kinds, fact))
